@@ -3,6 +3,71 @@ import HapVerif.Drv.Common
 namespace HapVerif.C04
 open HapVerif.Drv
 
-def handle (_args : List String) (_impl : String) : Verdict := bad "C04-not-implemented"
+def parseMT (s : String) : Option MT :=
+  match s with | "E" => some .exact | "P" => some .pfx | "B" => some .beg | _ => none
+
+def parseRule (s : String) : Option Rule :=
+  match s.splitOn "|" with
+  | [h, p, t, n] => do pure { host := h.toList, path := p.toList, mt := ← parseMT t, target := ← n.toNat? }
+  | _ => none
+
+def parseOrder (s : String) : Option (List MT) := s.toList.mapM fun c => parseMT c.toString
+
+def parseMethod (s : String) : Option Method :=
+  match s with | "str" => some .str | "beg" => some .beg | "dir" => some .dir | _ => none
+
+def parseKV (s : String) : Option (Str × Nat) :=
+  match s.splitOn ">" with
+  | [k, v] => (v.drop 1).toString.toNat?.map (k.toList, ·)
+  | _ => none
+
+def parseFile (s : String) : Option MFile :=
+  match s.splitOn ":" with
+  | [m, l, es] => do
+    pure { method := ← parseMethod m, lower := l = "L", entries := ← parseList parseKV es }
+  | _ => none
+
+def showFile (f : MFile) : String :=
+  (match f.method with | .str => "str" | .beg => "beg" | .dir => "dir") ++ ":" ++ (if f.lower then "L" else "N") ++ ":" ++
+    ",".intercalate (f.entries.map fun e => String.ofList e.1 ++ ">t" ++ toString e.2)
+
+def showLayout (fs : List MFile) : String := if fs.isEmpty then "-" else ";".intercalate (fs.map showFile)
+
+def perms {α} : List α → List (List α)
+  | [] => [[]]
+  | x :: xs => (perms xs).flatMap fun p => (List.range (p.length + 1)).map fun i => p.take i ++ x :: p.drop i
+
+def upperC (c : Char) : Char := if 'a' ≤ c ∧ c ≤ 'z' then Char.ofNat (c.toNat - 32) else c
+
+def parents (p : Str) : List Str :=
+  (List.range p.length).filterMap fun i => if p.getD i ' ' = '/' ∧ i > 0 then some (p.take i) else none
+
+/-- request alphabet derived from the rule set: every declared path and its neighbours -/
+def requests (rules : List Rule) : List (Str × Str) :=
+  let hosts := ((rules.map (·.host)) ++ ["zz.other".toList]).eraseDups
+  let ps := rules.map (·.path)
+  let paths := (ps.flatMap fun p =>
+    [p, p ++ ['x'], p ++ ['/'], p ++ "/x".toList, p ++ "/x/y".toList, p.map upperC, lower p,
+     (p.map upperC) ++ "/x".toList, (lower p) ++ "/x".toList] ++ parents p) ++ ["/".toList]
+  hosts.flatMap fun h => paths.eraseDups.map fun p => (h, p)
+
+/-- `maps <order> <rules>`; impl output = layout of MatchFiles() -/
+def handle (args : List String) (impl : String) : Verdict :=
+  match args with
+  | ["maps", ord, rs] =>
+    match parseOrder ord, parseList parseRule rs, parseList parseFile impl ";" with
+    | some ord, some rules, some fs =>
+      let es := entriesOf rules
+      let hosts := hostsOf es
+      let layouts := (perms hosts).map (rebuild ord es)
+      let agree := layouts.contains fs
+      let verdict := (requests rules).findSome? fun (h, p) =>
+        (checkReq rules fs h p).map fun sig => sig ++ ":" ++ String.ofList h ++ String.ofList p
+      -- the signature must not contain the request (known-finding keys are per clause)
+      let sig := verdict.map fun v => (v.splitOn ":").headD v
+      { model := showLayout (layouts.headD []), agree := agree, oracle := sig,
+        trivial := fs.length ≤ 1 }
+    | _, _, _ => bad "parse"
+  | _ => bad "C04"
 
 end HapVerif.C04
